@@ -345,8 +345,9 @@ def _is_abstract(fn) -> bool:
         return True
     if len(body) == 1 and isinstance(body[0], ast.Pass):
         return True
-    if len(body) == 1 and isinstance(body[0], ast.Raise) and body[0].exc is not None and 'NotImplementedError' in ast.unparse(body[0].exc):
-        return True
+    if len(body) == 1 and isinstance(body[0], ast.Raise) and body[0].exc is not None and \
+            re.search(r'not_?implemented', ast.unparse(body[0].exc), re.I):
+        return True          # raise NotImplementedError(..) or a factory of that message (_not_implemented('put', ..))
     return False
 
 
